@@ -386,7 +386,7 @@ def inline_calls(t, fx, depth=2, _seen=(), only=None):
     return tuple(inline_calls(x, fx, depth, _seen, only) if isinstance(x, tuple) else x for x in t)
 
 
-def entailed_atoms(cond_terms):
+def entailed_atoms(cond_terms, want_false=False):
     """Atoms (non-And/Or/Not sub-formulas) that hold in EVERY truth assignment satisfying all of `cond_terms`
     (a list of (term, holds) pairs). Propositional only: atoms are opaque; at most 12 distinct atoms (else only the
     syntactic conjuncts are returned)."""
@@ -427,13 +427,31 @@ def entailed_atoms(cond_terms):
 
         for c, h in cond_terms:
             conj(c, h)
+        if want_false:
+            out = []
+
+            def disj(c, holds):
+                if isinstance(c, tuple) and c and c[0] == "un" and c[1] == "Not":
+                    return disj(c[2], not holds)
+                if isinstance(c, tuple) and c and c[0] == "bin" and ((c[1] == "And" and holds) or (c[1] == "Or" and not holds)):
+                    disj(c[2], holds); disj(c[3], holds); return
+                if not holds:
+                    out.append(c)
+
+            for c, h in cond_terms:
+                disj(c, h)
         return out
     always = None
+    never = None
     for bits in itertools.product((False, True), repeat=len(atoms)):
         asg = dict(zip(atoms, bits))
         if all(ev(c, asg) == h for c, h in cond_terms):
             true_now = {a for a in atoms if asg[a]}
+            false_now = {a for a in atoms if not asg[a]}
             always = true_now if always is None else (always & true_now)
+            never = false_now if never is None else (never & false_now)
+    if want_false:
+        return list(never) if never is not None else list(atoms)
     return list(always) if always is not None else list(atoms)  # unreachable point: everything holds vacuously
 
 
